@@ -555,7 +555,7 @@ pub fn run(p: &Params) -> (Stats, &'static str) {
     let mut st = Stats::new();
     let mut rng = Rng64::new(p.shard_seed("C18"));
     st.engine("PURE", 1);
-    let n = p.share(if p.tier_thorough { 400_000 } else { 12_000 });
+    let n = p.share(if p.tier_thorough { 40_000_000 } else { 12_000 });
     // systematic: every domain length 0..=255 for SOCKS5 and SOCKS4a
     for l in 0..=255usize {
         if l as u64 % p.nshards != p.shard {
